@@ -61,7 +61,7 @@ def _v7(repo, mod):
 @variant("C04", "tuple-except-clause-never-matches", TU, "C04.numeric", "given_exception_matches normalises the clause like the exception")
 def _v8(repo, mod):
     fn = repo.func(TU, "given_exception_matches")
-    r = fn.body[-1]
+    r = find_stmt(fn, lambda s: isinstance(s, ast.If) and "tuple" in norm(s.test))
     return insert_before(mod, r, "if not isclass(exc):\n    exc = type(exc)")
 
 
@@ -90,3 +90,28 @@ def _vb1(repo, mod):
     fn = repo.func(TR, "ExecutionTracer.executed_bool_predicate")
     t = find_node(fn, lambda n: isinstance(n, ast.BoolOp) and "Sized" in norm(n))
     return replace_node(mod, t, "isinstance(value, Sized)")
+
+
+@variant("C04", "ge-evaluated-through-reflection", "pynguin.instrumentation.tracer", "C04.numeric", "a >= b evaluated as b <= a (the repaired defect)")
+def _v50(repo, mod):
+    from sa.selftest.harness import text_edit
+    return text_edit(mod, "_ge(value1, value2),", "_le(value2, value1),")
+
+
+@variant("C04", "string-distance-zero-for-unequal-subclass", "pynguin.instrumentation.tracer", "C04.numeric", "str subclass with its own __eq__ (the repaired defect)")
+def _v51(repo, mod):
+    from sa.selftest.harness import text_edit
+    return text_edit(mod, "return _positive_distance(lambda: string_distance(val1, val2))", "return string_distance(val1, val2)")
+
+
+@variant("C04", "membership-fallback-unguarded", "pynguin.instrumentation.tracer", "C04.numeric", "__contains__ disagreeing with iteration / raising __iter__ (the repaired defect)")
+def _v52(repo, mod):
+    fn = repo.func("pynguin.instrumentation.tracer", "_in")
+    t = find_stmt(fn, lambda s: isinstance(s, ast.Try) and "min(" in norm(s))
+    return replace_node(mod, t, "return min([_eq(val1, v) for v in val2] + [inf])")
+
+
+@variant("C04", "exception-match-by-issubclass", "pynguin.utils.type_utils", "C04.numeric", "metaclass hook / ABC registration honoured (the repaired defect)")
+def _v53(repo, mod):
+    fn = repo.func("pynguin.utils.type_utils", "given_exception_matches")
+    return replace_node(mod, fn.body[-1], "return issubclass(err, exc)")
